@@ -502,9 +502,24 @@ def c02(ck):
             smeta[cid] = (name, s, cs)
             sl.append("%s listen %d %s | %s" % (cid, rng.choice([0, 300, 3000]), svc.tokens(),
                                                 " ".join(hx(c) for c in cuts_to_chunks(s, cs))))
+    # an upgraded handler that returns to the server after every unit it has read (listen() then re-enters handle()
+    # with whatever tail it kept): payload partly in the segment of the upgrade request, the rest in later segments
+    for name, svc, s in streams:
+        if not (name.startswith("upg") or name.startswith("bigupg")):
+            continue
+        idx = s.find(b"\0", s.find(b'"u","r"]')) + 1
+        rest = len(s) - idx
+        if rest < 4:
+            continue
+        variants = [[idx + 1, idx + 2, idx + 3], [idx, idx + rest // 2], [idx + rest // 3, idx + 2 * rest // 3], []]
+        for j, cs in enumerate(variants):
+            cs = sorted(set(c for c in cs if 0 < c < len(s)))
+            cid = "u_%s_%d" % (name, j)
+            smeta[cid] = (name, s, cs)
+            sl.append("%s listenu %d %s | %s" % (cid, 4000, svc.tokens(), " ".join(hx(c) for c in cuts_to_chunks(s, cs))))
     simpl = run_lines(harness_bin("h_service"), sl, shards=6, timeout=900)
     for cid, (name, s, cs) in smeta.items():
-        ck.case("sock|%s|%s" % (name, cs))
+        ck.case("sock|%s|%s|%s" % (cid[0], name, cs))
         ck.count("socket_cases")
         if not same_out(out_of(simpl[cid]), out_of(impl["w_" + name])) or "timeout=1" in simpl[cid]:
             ck.failures.append({"what": "reply bytes over a listen() socket depend on the sender's segmentation / differ from in-memory",
@@ -654,6 +669,36 @@ def c03(ck):
                 exp = [{"error": "org.varlink.service.MethodNotFound", "parameters": {"method": m}}]
                 if out != exp:
                     ck.failures.append({"what": "unknown built-in method not answered MethodNotFound", "request": r, "got": out})
+    # routing does not depend on what was routed before on the same connection: every kind of method string, then a call
+    # to a registered interface in the same input; the second request must reach exactly that interface
+    l2, m2 = [], {}
+    for si, svc in enumerate(services):
+        names = svc.names()
+        if not names:
+            continue
+        firsts = ["nodot", "", ".", names[0], names[0] + ".Nope", "no.such.Run", "org.varlink.service.GetInfo", "org.varlink.service.Nope",
+                  "." + names[0] + ".Run", names[0] + "..Run", names[-1] + ".Run"]
+        for fi, fm in enumerate(firsts):
+            tgt = names[(si + fi) % len(names)]
+            r1 = req(fm, {"script": ["w"], "tag": "first"})
+            r2 = req(tgt + ".Run", {"script": ["w"], "tag": {"second": fi}})
+            cid = "p%d_%d" % (si, fi)
+            m2[cid] = (svc, r1, r2, tgt)
+            l2.append(feed_line(cid, svc, [enc(r1) + enc(r2)]))
+    i2, mod2 = run_both(ck, l2, model_ok, shards=8)
+    diff_model(ck, list(m2), i2, mod2, lambda c: "service %s requests %s then %s" % (m2[c][0].names(), m2[c][1]["method"], m2[c][2]["method"]))
+    for cid, (svc, r1, r2, tgt) in m2.items():
+        ck.case("pair|" + svc.tokens() + json.dumps([r1, r2], sort_keys=True))
+        ck.count("route=second_of_two")
+        res = i2[cid]
+        if "out=" not in res:
+            ck.failures.append({"what": "no result / panic", "requests": [r1, r2], "result": res})
+            continue
+        out = canon_reply_stream(out_of(res))
+        want = {"parameters": {"iface": tgt, "req": dict(r2)}}
+        if not out or out[-1] != want or fields(res).get("tail", "-") != "-":
+            ck.failures.append({"what": "a call to a registered interface did not reach it (or was left unprocessed) after an earlier request on the same connection",
+                                "interfaces": svc.names(), "first": r1, "second": r2, "got": out, "tail": fields(res).get("tail")})
 
 
 def c05_server(ck, model_ok):
@@ -868,10 +913,43 @@ def c06(ck):
         sl.append("%s listen 0 %s | %s" % (cid, svc.tokens(), hx(meta[cid][1])))
         if i % 3 == 0:
             sl.append("h%d listen 0 %s | %s" % (i, svc.tokens(), hx(healthy)))
+    # a well-formed request that arrives (in a later segment) after the malformed message must not be answered: the
+    # connection is closed by then
+    follower = stream_of(build_reqs([("ok", "-")]))
+    late = [c for c in sample if fields(impl[c]).get("closed") == "1" and fields(impl[c]).get("upg") == "none"]
+    for cid in late[:(40 if quick else 400)]:
+        sl.append("L%s listen 30000 %s | %s %s" % (cid, svc.tokens(), hx(meta[cid][1]), hx(follower)))
+    # truncated messages: the peer stops in the middle of a message and closes its side; the server must answer what
+    # was complete, emit nothing for the fragment and finish the connection (not wait or spin on it)
+    trunc = [c for c in meta if meta[c][0].startswith("trunc")]
+    rng.shuffle(trunc)
+    for cid in trunc[:(12 if quick else 150)]:
+        sl.append("T%s listen 0 %s | %s" % (cid, svc.tokens(), hx(meta[cid][1])))
     simpl = run_lines(harness_bin("h_service"), sl, shards=4, timeout=900)
     hw = run_lines(harness_bin("h_service"), [feed_line("hw", svc, [healthy])])["hw"]
     for cid, res in simpl.items():
         ck.count("socket_cases")
+        if cid.startswith("T"):
+            base = cid[1:]
+            ck.case("trunc-sock" + base)
+            ck.count("truncated_over_socket")
+            if "timeout=1" in res or res.startswith(("PANIC", "NO-OUTPUT", "CONNECT-ERROR")):
+                ck.failures.append({"what": "the server did not finish a connection whose peer closed in the middle of a message",
+                                    "label": meta[base][0], "stream_hex": meta[base][1].hex()[:1000], "result": res[:200]})
+            elif canon_reply_stream(out_of(res)) != canon_reply_stream(out_of(impl[base])):
+                ck.failures.append({"what": "socket replies for a truncated stream differ from in-memory", "label": meta[base][0],
+                                    "stream_hex": meta[base][1].hex()[:1000], "socket": res[:300], "memory": impl[base][:300]})
+            continue
+        if cid.startswith("L"):
+            base = cid[1:]
+            ck.case("late" + base)
+            ck.count("late_follower")
+            if res.startswith(("PANIC", "NO-OUTPUT", "CONNECT-ERROR")):
+                ck.failures.append({"what": "server process/socket failure on hostile input", "label": meta[base][0], "result": res[:200]})
+            elif canon_reply_stream(out_of(res)) != canon_reply_stream(out_of(impl[base])):
+                ck.failures.append({"what": "a request sent after a malformed message on the same connection was answered (the faulty connection was not closed)",
+                                    "label": meta[base][0], "stream_hex": meta[base][1].hex()[:1000], "socket": res[:300], "memory": impl[base][:300]})
+            continue
         if cid.startswith("h"):
             ck.case("healthy" + cid)
             if canon_reply_stream(out_of(res)) != canon_reply_stream(out_of(hw)):
